@@ -43,6 +43,11 @@ class Ctx:
         self.obs.append(Ob(inst, rule, "discharged", loc, msg))
 
     def violation(self, inst, rule, loc, msg, witness=None):
+        if rule == "anchor":
+            # a rule that could not find the construct it reads (a loop, a closure, a local) cannot judge the code: that is
+            # 'analysis broken' (exit 2), never a verdict
+            self.obs.append(Ob(inst, rule, "broken", loc, msg))
+            return
         self.obs.append(Ob(inst, rule, "violated", loc, msg, witness))
 
     def broken(self, inst, rule, loc, msg):
@@ -190,7 +195,37 @@ def run_rules(pid, repo, tier="quick", seed=0):
     ctx = Ctx(pid, prog, cg, st, tier, seed)
     mod = importlib.import_module("analysis.rules." + pid)
     mod.run(ctx)
+    _unfollowed_helpers(ctx)
     return ctx, mod
+
+
+_INTERPROCEDURAL = ("interprocedural", "through helpers", "E-ESCAPE", "who-may", "E-TYPE", "lockset", "E-LOCK", "field-read", "storage_class", "effect")
+
+
+def _unfollowed_helpers(ctx):
+    """An intraprocedural rule that names, in what it found, a call of a function which does not exist on the reference tree and was
+    not folded back into its caller (analysis/inline.py) has judged code it could not follow: the verdict becomes 'analysis broken'.
+    Interprocedural rules (escape analysis, who-may-call, summaries, type rules) follow helpers themselves and keep their verdicts."""
+    import re
+    from .inline import known_functions
+    kk = known_functions()
+    if kk is None:
+        return
+    known = kk[0]
+    new = {f.name for f in ctx.prog.fns.values()
+           if f.file.startswith("oomd/") and f.kind in ("function", "method") and not f.d.get("parentfn")
+           and not f.d.get("inlined_into") and program.plain(f.d["qname"]) not in known and not f.name.startswith("operator") and len(f.name) > 3}
+    if not new:
+        return
+    rx = re.compile(r"\b(%s)\(" % "|".join(sorted(map(re.escape, new))))
+    for o in ctx.obs:
+        if o.status != "violated" or any(x in (o.rule or "") for x in _INTERPROCEDURAL):
+            continue
+        text = (o.msg or "") + " " + " ".join(map(str, o.witness or []))
+        m = rx.search(text)
+        if m:
+            o.status = "broken"
+            o.msg = "cannot be decided: what the rule found goes through the new helper %s(), which it does not follow - %s" % (m.group(1), o.msg)
 
 
 def main(argv):
